@@ -258,10 +258,16 @@ class System:
                 want = ("raised", m.value)
             else:
                 want = ("raised", "DeferredNotFired")
+            # (Deferred debugging is switched on for the call - by a DebugTwisted fixture, say - after
+            # the Deferred was made without it)
+            was = defer.getDebugging()
+            defer.setDebugging(True)
             try:
                 got = ("value", repr(extract_result(d)))
             except Exception as e:
                 got = ("raised", type(e).__name__)
+            finally:
+                defer.setDebugging(was)
             m.apply_cb("consume")
             if check and got != want:
                 problems.append(("extract_result", "extract_result in state %s gave %r, model says %r" % (_st(m), got, want)))
